@@ -16,6 +16,9 @@ import (
 	am "github.com/hashicorp/go-argmapper"
 )
 
+// raceMode widens the window between a run-once function's memo check and its store
+var raceMode bool
+
 var raceMu sync.Mutex // protects the harness's own bookkeeping inside function bodies
 
 // raceLogSize sums the sizes of the race detector's log files (GORACE=log_path=<prefix>).
@@ -89,7 +92,10 @@ func genRace(w *bufio.Writer, r *rng, id int, goroutines, rounds int) {
 			f.Form = "struct"
 		}
 	}
-	sc.Defaults = 0
+	if r.chance(1, 2) {
+		sc.Defaults = 0
+	}
+	raceMode = true
 	if err := sc.buildAll(); err != nil {
 		fmt.Fprintf(w, "scn race %d builderr\nend\n", id)
 		return
@@ -98,7 +104,7 @@ func genRace(w *bufio.Writer, r *rng, id int, goroutines, rounds int) {
 	w.Flush()
 	// ONE shared option slice, built once (no logger: hclog's default is used by every goroutine)
 	var shared []am.Arg
-	for _, o := range sc.Opts {
+	for _, o := range sc.Opts[sc.Defaults:] {
 		shared = append(shared, sc.mkArg(o))
 	}
 	// sequential reference outcomes (fresh function objects afterwards so memo cells start empty)
@@ -113,7 +119,7 @@ func genRace(w *bufio.Writer, r *rng, id int, goroutines, rounds int) {
 		seq[outcomeOf(sc, res, pan)] = true
 		sc.buildAll()
 		shared = shared[:0]
-		for _, o := range sc.Opts {
+		for _, o := range sc.Opts[sc.Defaults:] {
 			shared = append(shared, sc.mkArg(o))
 		}
 	}
